@@ -109,6 +109,19 @@ pub fn curated(ctx: &Ctx) -> Vec<BuildSpec> {
     s.summary = "s".repeat(8_193);
     s.description = Some("d".repeat(65_537));
     v.push(s);
+    // builders that start from Default::default() (the five required texts are empty; whatever new() sets up must be there all the same)
+    for (k, base) in [BuildSpec::minimal(), one_file(), rich()].into_iter().enumerate() {
+        let mut s = base;
+        s.from_default = true;
+        for f in [&mut s.name, &mut s.version, &mut s.license, &mut s.arch, &mut s.summary] {
+            f.clear();
+        }
+        if k == 2 {
+            s.compression = Comp::Gzip(1);
+            s.sign = Some(Key::Ed25519);
+        }
+        v.push(s);
+    }
     // the whole character domain in one text: every Unicode scalar value except NUL, in code-point order and (for the
     // changelog) the Basic Multilingual Plane backwards
     let mut s = one_file();
